@@ -194,7 +194,8 @@ Proof. induction p as [a|c k IH]; cbn [all_steps]; [auto|]. intros [Hc Hk]. spli
 Theorem remove_fully_confined dst key : all_steps (confined dst) (remove_fully hash key).
 Proof.
   unfold remove_fully. apply all_steps_rbind; [apply readonly_all_confined, find_ro|]. intros e. apply all_steps_rbind.
-  - destruct e as [m|]; [|exact I]. unfold with_cpath. destruct (content_path (m_sri m)); [conf_step|exact I].
+  - destruct e as [m|]; [|exact I]. unfold with_cpath. destruct (content_path (m_sri m)); [|exact I].
+    unfold unlink_if_present. cbn [all_steps]. split; [intros lx ->; left; eexists; reflexivity|]. intros r. destruct r as [| | | | | |[]]; exact I.
   - intros _. conf_step.
 Qed.
 
